@@ -97,7 +97,7 @@ def instances(group, O, P, UO, UP, FO, FP, tier):
 def unit_ops(args, prefix=(), max_depth=None):
     tier, group = args['tier'], args['group']
     UO, UP, FO, FP = universes(tier)
-    core.set_width(8)
+    core.set_width(10)
     harness.set_kernel_mode('contract')
     eng = defs.Engine()
     D = eng.D
@@ -201,6 +201,10 @@ def unit_ops(args, prefix=(), max_depth=None):
                     if other is not None:
                         extra.append((z3.BoolVal(list(other._objects) == a[0] and list(other._properties) == a[1]),
                                       f'{what}: the argument definition was changed'))
+                        comps = lambda x: [x._objects, x._objects._seen, x._objects._items, x._properties,
+                                           x._properties._seen, x._properties._items, x._pairs]
+                        extra.append((z3.BoolVal(not any(a_ is b_ for a_ in comps(d) for b_ in comps(other))),
+                                      f'{what}: receiver and argument share a mutable component afterwards'))
                         got2 = eng.cells(other)
                         extra.append((z3.And(*[got2[k] == m2[k] for k in m2]) if m2 else T,
                                       f'{what}: cells of the argument definition were changed'))
